@@ -19,6 +19,8 @@ def query(obj, q, salt=0, u=None):
     """Run read-only query q on obj, return its value (numpy) or None."""
     jnp = lib()["jnp"]
     k = ref.kind_of(obj)
+    if k == "trunc":
+        return A(obj.integrate("1"))
     if k in ("measure", "pdf"):
         if q == "integrate1":
             return A(obj.integrate("1"))
@@ -57,6 +59,8 @@ def canonical_rebuild(obj):
     cls = type(obj)
     name = cls.__name__
     k = ref.kind_of(obj)
+    if k == "trunc":
+        return None
     if k == "pdf":
         return cls(Sigma=obj.Sigma, mu=obj.mu)
     if k == "measure":
@@ -106,6 +110,8 @@ def generalise(obj, u=None):
 
 def restore(obj, via):
     jax = lib()["jax"]
+    if ref.kind_of(obj) == "trunc":
+        return None
     if via == "dict":
         if not hasattr(obj, "to_dict"):
             return None
